@@ -26,7 +26,14 @@ def find_cache_function(ctx):
                 out.append((f, c))
     if len(out) != 1:
         raise AnalysisError('expected exactly one function constructing diskcache.Cache in %s, found %d' % (F, len(out)))
-    return out[0]
+    # helpers a refactoring may have extracted (key construction, the uncached producer) are expanded in place
+    f = flow.inline_helpers(out[0][0])
+    if f is out[0][0]:
+        return out[0]
+    for c in walk_no_nested(f):
+        if isinstance(c, ast.Call) and ast.unparse(c.func) in ('diskcache.Cache', 'Cache'):
+            return f, c
+    raise AnalysisError('diskcache.Cache call lost while expanding helpers')
 
 
 def check(ctx):
@@ -174,6 +181,11 @@ def check(ctx):
     if entry is None:
         raise AnalysisError('no caller of %s found' % f.name)
     g, ccall = entry
+    g2 = flow.inline_helpers(g, exclude=(f.name,))
+    if g2 is not g:
+        cc2 = [c for c in walk_no_nested(g2) if isinstance(c, ast.Call) and isinstance(c.func, ast.Name) and c.func.id == f.name]
+        if len(cc2) == 1:
+            g, ccall = g2, cc2[0]
     gq = Model.qual(g)
     bypass = None
     for n in walk_no_nested(g):
